@@ -610,6 +610,20 @@ Qed.
 (* Run's exit paths                                                    *)
 (* ------------------------------------------------------------------ *)
 
+(* what Run requests - and, being the same variable, returns - is the Procs
+   pragma, never more than a whole machine, and the whole machine if exclusive *)
+Theorem run_procs_clamped pragma exclusive mp :
+  1 <= mp -> 1 <= pragma ->
+  1 <= run_procs pragma exclusive mp <= mp /\
+  (exclusive = true -> run_procs pragma exclusive mp = mp) /\
+  (exclusive = false -> run_procs pragma exclusive mp = Z.min pragma mp).
+Proof.
+  intros H1 H2. unfold run_procs. destruct exclusive; simpl.
+  - split; [lia|]. split; [reflexivity | discriminate].
+  - destruct (mp <? pragma) eqn:E; [apply Z.ltb_lt in E | apply Z.ltb_ge in E];
+      (split; [lia|]; split; [discriminate | intros _; lia]).
+Qed.
+
 Theorem run_returns_procs x : run_granted x = true -> done_count x = 1%nat.
 Proof. destruct x as [| [|] | | | [|] | []]; intro H; try reflexivity; discriminate. Qed.
 
